@@ -1,0 +1,55 @@
+//go:build verif
+
+package core
+
+// Contracts for the intrusive queues of message.go, read by the rcvc verifier in /verif (comment-only; adds no code).
+// Abstract view of a queue l: the sequence mq(l, 0), ..., mq(l, l.count-1) (oldest first), obtained by
+// following `prev` from the head.
+
+//@ use queue
+
+//@ define mq(l, k) = qnth(heap(Msg.prev), l.head, k)
+//@ define mqm(l, k) = ref(Msg, mq(l, k))
+//@ define mwf(l) = l.count >= 0 && qnth_unfold(heap(Msg.prev), l.head, 1) && (l.count == 0 ==> l.head == nil && l.tail == nil)
+//@     && (l.count > 0 ==> l.head != nil && l.tail == mq(l, l.count - 1) && l.tail.prev == nil)
+//@     && (forall i int :: 0 <= i && i < l.count ==> mq(l, i) != nil)
+//@     && (forall i int, j int :: 0 <= i && i < j && j < l.count ==> mq(l, i) != mq(l, j))
+//@ define mnotin(l, m) = forall i int :: 0 <= i && i < l.count ==> mq(l, i) != m
+
+//@ func MsgQueue.Empty
+//@   props C01
+//@   flags pure
+//@   ensures result == (l.count < 1)
+
+//@ func MsgQueue.Reset
+//@   props C01
+//@   modifies l.count, l.tail, l.head
+//@   ensures mwf(l) && l.count == 0
+
+//@ func MsgQueue.PushTail
+//@   props C01
+//@   modifies l.head, l.tail, l.count, m.next, m.prev, old(l.tail).prev
+//@   requires mwf(l) && m != nil && mnotin(l, m)
+//@   ensures[count] l.count == old(l.count) + 1
+//@   ensures[keep] forall i int :: 0 <= i && i < old(l.count) ==> mq(l, i) == old(mq(l, i))
+//@   ensures[last] qnth_unfold(heap(Msg.prev), l.head, old(l.count)) && mq(l, old(l.count)) == m
+//@   ensures[wf] mwf(l)
+
+//@ func MsgQueue.PopHead
+//@   props C01
+//@   modifies l.head, l.tail, l.count, old(l.head).next, old(l.head).prev, old(l.head.prev).next
+//@   requires mwf(l)
+//@   ensures[empty] old(l.count) == 0 ==> l.count == 0 && l.head == nil && l.tail == nil
+//@   ensures[count] old(l.count) > 0 ==> l.count == old(l.count) - 1
+//@   ensures[shift] forall i int :: 0 <= i && i < l.count ==> mq(l, i) == old(mq(l, i + 1))
+//@   ensures[wf] mwf(l)
+//@   ensures[detached] old(l.count) > 0 ==> old(l.head).prev == nil && old(l.head).next == nil
+
+//@ func MsgQueue.AllDone
+//@   props C01 C09
+//@   flags pure
+//@   requires mwf(l)
+//@   ensures[alldone] result == (forall i int :: 0 <= i && i < l.count ==> mqm(l, i).Done)
+//@   loop 0
+//@     invariant exists k int :: 0 <= k && k <= l.count && cur == mq(l, k) && qnth_unfold(heap(Msg.prev), l.head, k + 1)
+//@         && (forall i int :: 0 <= i && i < k ==> mqm(l, i).Done)
